@@ -75,6 +75,8 @@ type fakeNet struct {
 	turnMode     string // "ok", "listen-error", "allocate-error", "allocate-blocks"
 	turnRelease  chan struct{}
 	listenPacket int
+	// inUseFailures counts listens refused because the port was still held (e.g. by a cycle winding down)
+	inUseFailures int
 }
 
 func newFakeNet(ifaces []fnIface) *fakeNet {
@@ -137,6 +139,8 @@ func (f *fakeNet) listenUDP(network string, laddr *net.UDPAddr) (*fnSock, error)
 			}
 		}
 	} else if f.ports[fmt.Sprintf("%s:%d", a, port)] {
+		f.inUseFailures++
+
 		return nil, &net.OpError{Op: "listen", Net: network, Err: os.NewSyscallError("bind", syscall.EADDRINUSE)}
 	}
 	f.ports[fmt.Sprintf("%s:%d", a, port)] = true
